@@ -15,19 +15,19 @@ ASSUMPTIONS = ["clock not before 2000-01-01 (dtn_time_now underflows otherwise; 
 _B = {}
 
 
-def _bundle(hop=None, age=None, prev=True, t=1000, life=3600000, extra_first=False, seq=0):
+def _bundle(hop=None, age=None, prev=True, t=1000, life=3600000, extra_first=False, seq=0, bflags=(0, 0, 0)):
     p = dict(ver=7, flags=0, crc=("N",), dst=("DTN", 1, b"//d/x"), src=("DTN", 1, b"//s/y"), rpt=("NONE", 1, 0), t=t, seq=seq,
              life=life, foff=0, flen=0)
     cs = []
     n = 5
     if hop is not None:
-        cs.append(dict(type=10, num=n, flags=0, crc=("N",), data=("HOP", hop[0], hop[1])))
+        cs.append(dict(type=10, num=n, flags=bflags[0], crc=("N",), data=("HOP", hop[0], hop[1])))
         n -= 1
     if age is not None:
-        cs.append(dict(type=7, num=n, flags=0, crc=("N",), data=("AGE", age)))
+        cs.append(dict(type=7, num=n, flags=bflags[1], crc=("N",), data=("AGE", age)))
         n -= 1
     if prev:
-        cs.append(dict(type=6, num=n, flags=0, crc=("N",), data=("PREV", ("DTN", 1, b"//old/"))))
+        cs.append(dict(type=6, num=n, flags=bflags[2], crc=("N",), data=("PREV", ("DTN", 1, b"//old/"))))
         n -= 1
     cs.append(dict(type=1, num=1, flags=0, crc=("N",), data=("DATA", b"p")))
     return dict(p=p, cs=cs)
@@ -55,6 +55,12 @@ def corpus():
         out.append(_line(_bundle(t=0, seq=seq, life=1000), 5000, NODE, 0))
         out.append(_line(_bundle(t=0, seq=seq, life=0, age=0), 2 ** 40, NODE, 0))
     out.append(_line(_bundle(t=1, seq=0, life=1000), 5000, NODE, 0))
+    # block processing control flags of the three blocks play no part in the forwarding update (reserved bits 0xF0 included)
+    for fl in (0xF0, 0xFF, 0x08, 0x10):
+        out.append(_line(_bundle(hop=(3, 3), age=5, bflags=(fl, fl, fl)), 5000, NODE, 7))
+        out.append(_line(_bundle(hop=(3, 1), age=5, bflags=(fl, 0, 0)), 5000, NODE, 7))
+        out.append(_line(_bundle(age=3600000, bflags=(0, fl, 0)), 5000, NODE, 1))
+        out.append(_line(_bundle(bflags=(0, 0, fl)), 5000, NODE, 1))
     return out
 
 
@@ -81,7 +87,8 @@ def cases(rng, tier):
         now = min(rng.choice(nows), U64 - 1 - OFFSET)
         hop = rng.choice([None, None, (32, 1), (rng.randrange(256), rng.randrange(256)), (255, 254), (255, 255), (0, 0)])
         node = rng.choice([NODE, ("IPN", 2, 23, 0), ("NONE", 1, 0)])
-        out.append(_line(_bundle(hop=hop, age=age, prev=rng.random() < 0.6, t=t, life=L, seq=rng.choice([0, 0, 1, 40, U64 - 1, rnd_u64(rng)])), now, node, rt))
+        out.append(_line(_bundle(hop=hop, age=age, prev=rng.random() < 0.6, t=t, life=L, seq=rng.choice([0, 0, 1, 40, U64 - 1, rnd_u64(rng)]),
+                                 bflags=tuple(rng.choice([0, 0, 0, 1, 4, 16, 0xF0, 0xFF, 8, rng.randrange(256)]) for _ in range(3))), now, node, rt))
     return out
 
 
